@@ -127,6 +127,17 @@ def is_valid_rules(R, pfx):
     prep(vb)
     names = {c["ncallee"] for b in F.item(PAD + "::is_valid") for c in b.calls}
     ok = True
+    # the verified message, followed through same-crate helpers (`self.bytes_for_signature()`): callees and fields on its chain
+    from rules import _chain_calls
+    ver0 = [b for b in vb.blocks if b["term"]["k"] == "call" and callee_matches(b["term"], [VER])]
+    chain_names, chain_fields = set(), set()
+    for b in ver0:
+        for a in b["term"]["args"]:
+            if op_local(a) is not None:
+                n_, f_ = _chain_calls(F, vb, op_local(a), depth=2)
+                chain_names |= set(n_)
+                chain_fields |= f_
+    names |= chain_names
     for k, w in ((PAD + "::owner", "with the owner's key"), (PAD + "::encrypted_data_hash", "over the data hash")):
         if k not in names:
             ok = False
@@ -154,10 +165,10 @@ def is_valid_rules(R, pfx):
                                          ".upv%d" % k in ((s2["rv"]["a"][1] if s2["rv"]["k"] == "use" and s2["rv"]["a"][0] in ("cp", "mv") else s2["rv"].get("p")) or [])}
                                 out |= ta.closure(caps)
         return out
-    if not all(any(op_local(a) in derived_from("counter") for a in b["term"]["args"]) for b in ver):
+    if not all(any(op_local(a) in derived_from("counter") for a in b["term"]["args"]) for b in ver) and "counter" not in chain_fields:
         ok = False
         R.viol(pfx + ".is_valid", "counter-unsigned", "the counter does not flow into the bytes verified by Scratchpad::is_valid", vb, vb.lines[0])
-    if not all(any(op_local(a) in derived_from(PAD + "::encrypted_data_hash") for a in b["term"]["args"]) for b in ver):
+    if not all(any(op_local(a) in derived_from(PAD + "::encrypted_data_hash") for a in b["term"]["args"]) for b in ver) and (PAD + "::encrypted_data_hash") not in chain_names:
         ok = False
         R.viol(pfx + ".is_valid", "hash-unsigned", "the data hash does not flow into the bytes verified by Scratchpad::is_valid", vb, vb.lines[0])
     if not all(op_local(b["term"]["args"][0]) in derived_from(PAD + "::owner") for b in ver):
